@@ -372,12 +372,13 @@ func (gl *glue) preamble() string {
 	return b.String()
 }
 
-// runGlue translates the glue roots of package p; returns the number of
-// functions that could not be translated.
-func runGlue(p *pkg, verifDir string) int {
+// runGlue translates the glue roots of package p; returns the translator (nil:
+// the package has no glue part), the text of the generated file and the number
+// of functions that could not be translated.  Nothing is written here.
+func runGlue(p *pkg) (*glue, string, int) {
 	cfg, ok := glueConfigs[p.cfg.pkgDir]
 	if !ok {
-		return 0
+		return nil, "", 0
 	}
 	gl := newGlue(p, cfg)
 	glueMode = true
@@ -385,7 +386,6 @@ func runGlue(p *pkg, verifDir string) int {
 		gl.summaryOf(r, nil, nil)
 	}
 	glueMode = false
-	writeIfChanged(verifDir+"/coq/Gen/"+cfg.module+".v", []byte(gl.emitFile()))
 	if gl.nfail > 0 {
 		var names []string
 		for _, k := range gl.order {
@@ -397,5 +397,5 @@ func runGlue(p *pkg, verifDir string) int {
 		fmt.Fprintf(os.Stderr, "limbgen: %s: %d function(s) NOT translated (marker definitions emitted): %s\n",
 			cfg.module, gl.nfail, strings.Join(names, " "))
 	}
-	return gl.nfail
+	return gl, gl.emitFile(), gl.nfail
 }
